@@ -13,13 +13,13 @@ PROPERTY = {
 }
 
 def fold_loop(fn, cast, cursor="p", base="pdata", cnt="nbyte", acc="value"):
-    return {fn: [{"loop_id": 0, "expect": "for (; %s; --%s" % (cnt, cnt),
+    return {fn: [{"loop_id": 0, "expect": "for (; %s" % cnt,
                   "invariants": "%s == (%s)verif_g && %s == (const unsigned char *)%s + verif_i && verif_i + %s == __CPROVER_loop_entry(%s) && %s <= __CPROVER_loop_entry(%s)" % (acc, cast, cursor, base, cnt, cnt, cnt, cnt),
                   "assigns": "%s, %s, %s, verif_g, verif_i" % (acc, cnt, cursor),
                   "decreases": cnt}]}
 
 def str_loop(fn):
-    return {fn: [{"loop_id": 0, "expect": "for (; *str; ++str)",
+    return {fn: [{"loop_id": 0, "expect": "for (; *str",
                   "invariants": "val == (unsigned int)verif_g && str == (const unsigned char *)str_ + verif_i && verif_i < verif_n",
                   "assigns": "val, str, verif_g, verif_i",
                   "decreases": "verif_n - verif_i"}]}
@@ -30,7 +30,7 @@ for w, t in ((8, "unsigned char"), (16, "unsigned short"), (32, "unsigned int"),
     for o in "ml":
         fn = "a_crc%d%s_init" % (w, o)
         UNITS.append(U("tbl_crc%d%s" % (w, o), "crc.c", "h_tbl_" + fn, functions=[fn], unwind=66, min_obl=10, replay=RP,
-                       loops={fn: [{"loop_id": 1, "contract_loop_id": 0, "expect": "for (c = 0; c != 0x100; ++c)",
+                       loops={fn: [{"loop_id": 1, "contract_loop_id": 0, "expect": "for (c = 0;",
                                     "invariants": "c <= 256 && (!(verif_k < c) || (table[verif_k] == (%s)verif_T && verif_good != 0)) && (c == 0 || verif_poly == poly)" % t,
                                     "assigns": "c, __CPROVER_object_whole(table), verif_T, verif_good, verif_poly", "decreases": "256 - c"}]},
                        defines=["VERIF_TBL_HOOK"],
